@@ -213,7 +213,7 @@ def theorem_domain(ctx):
     return mism
 
 
-KEYWISE_THEOREMS = ['Nbdime.C06_model_keywise', 'Nbdime.C06_model_different_keys', 'Nbdime.apply_keywise_obj']
+KEYWISE_THEOREMS = ['Nbdime.C06_model_keywise', 'Nbdime.C06_model_different_keys', 'Nbdime.apply_keywise_obj', 'Nbdime.C09_model_keywise_all']
 THEOREMS.extend(t for t in KEYWISE_THEOREMS if t not in THEOREMS)
 
 
@@ -300,6 +300,13 @@ def keywise_domain(ctx):
                 if canon(dec(merged['ok'])) != canon(dec(patched['ok'])):
                     # impossible by C06_model_keywise: a driver / codec fault
                     raise vlib.Infra('driver contradicts C06_model_keywise')
+                for a_, b_ in (('as_local', 'local'), ('as_remote', 'remote')):
+                    # C09_model_keywise_choose_local / _remote: choosing a side for every decision = that side's patch
+                    if 'ok' in kw.get(b_, {}) and ('ok' not in kw.get(a_, {}) or canon(dec(kw[a_]['ok'])) != canon(dec(kw[b_]['ok']))):
+                        raise vlib.Infra('driver contradicts C09_model_keywise_choose_%s' % b_)
+                for side_, nb_ in (('as_local', data['l']), ('as_remote', data['r'])):
+                    if 'ok' in kw.get(side_, {}) and canon(dec(kw[side_]['ok'])) != canon(dec(nb_)):
+                        mism.append({'stream': 'merge-model', 'tag': 'rootkey-' + side_, 'difference': {'model_side_selection_differs_from_the_side': side_}, 'case': data})
                 if canon(mergemodel.mask_markers(dec(merged['ok']))) != canon(mergemodel.mask_markers(plain(e))):
                     mism.append({'stream': 'merge-model', 'tag': 'rootkey-applied', 'difference': {'model_merged_differs_from_expected': True}, 'case': data})
     ctx.cov['correspondence_mismatches'] = ctx.cov.get('correspondence_mismatches', 0) + len(mism)
